@@ -215,3 +215,15 @@ pub fn vec_sort_unstable_by_key_2<T, F: Fn(&T) -> (usize, usize)>(v: &mut Vec<T>
         final(v)@.len() == old(v)@.len(),
         forall |i: int, j: int| 0 <= i < j < final(v)@.len() ==> key_le(key(#[trigger] final(v)@[i]), key(#[trigger] final(v)@[j])),
 { v.sort_unstable_by_key(f) }
+
+// class S: Clone of a key type / of a HashMap: the clone equals the original (true for every std key type; HashMap::clone
+// clones keys and values, and the values here have structural derived Clone)
+#[verifier::external_body]
+pub fn clone_eq<T: Clone>(x: &T) -> (r: T)
+    ensures r == *x
+{ x.clone() }
+
+#[verifier::external_body]
+pub fn hm_clone<K: Clone + Eq + std::hash::Hash, V: Clone>(m: &HashMap<K, V>) -> (r: HashMap<K, V>)
+    ensures r@ == m@
+{ m.clone() }
